@@ -32,6 +32,9 @@ CHECKS["C13"] = ("§5 C13", "Every history of 3 (quick) / 4-5 (thorough) operati
 CHECKS["C16"] = ("§5 C16", "Every template of 0..2 segments (3 thorough; 4 in slices) over a 12-kind segment alphabet (literals with %/:/!/non-ASCII, doubled braces, "
     "7 field expressions incl. failing ones) driven through the real handler on log-only and snapshot+log tracepoints, 1-3 hits: message text equals an independent "
     "renderer, one logger call per permitted hit labelled (tracepoint id, context id) in their places, snapshot.log_msg and LOG-source watches agree.")
+CHECKS["C17"] = ("§5 C17", "Metric tracepoints delivered as real protobuf definitions through convert_response and driven through the real handler: per permitted hit "
+    "and per processor one call per definition via the operation named by its type, with name/namespace(default deep)/help/unit, labels (static/expression/failing), "
+    "value = expression as number or 1; no processor => nothing reported and no budget used. Selector spaces enumerated by the solver.")
 PENDING = {}
 
 def main():
